@@ -34,16 +34,17 @@ pub fn classify(text: &str) -> (String, String, String) {
     if let Some(l) = line("Undefined Behavior") {
         return ("C20.ub".into(), "undefined_behavior".into(), l);
     }
-    if let Some(l) = line("memory leaked") {
-        return ("C20.ub".into(), "leak".into(), l);
-    }
     if let Some(l) = line("the evaluated program deadlocked") {
         return ("C20.eos".into(), "recv_deadlock_after_close".into(), format!("{l} (consumer thread parked in recv(); every producer thread had finished)"));
     }
-    for (tag, kind) in [("C20.eos: ring never full", "undrained_at_eos"), ("C20.once", "duplicate"), ("C20.order", "reordered"), ("C20.identity", "corrupt_sample"), ("C20.balance", "lost_beyond_overflow"), ("C20.eos", "wrong_end")] {
+    for (tag, kind) in [("C20.release: released twice", "released_twice"), ("C20.release: leaked", "leaked"), ("C20.eos: ring never full", "undrained_at_eos"), ("C20.once", "duplicate"), ("C20.order", "reordered"), ("C20.identity", "corrupt_sample"), ("C20.balance", "lost_beyond_overflow"), ("C20.eos", "wrong_end")] {
         if let Some(l) = line(tag) {
             return (tag.split(':').next().unwrap_or(tag).to_string(), kind.into(), l);
         }
+    }
+    // Miri's own leak report at exit (the run's assertions passed, or did not cover the allocation)
+    if let Some(l) = line("memory leaked") {
+        return ("C20.ub".into(), "leak".into(), l);
     }
     let l = line("error").unwrap_or_else(|| text.lines().rev().find(|l| !l.trim().is_empty()).unwrap_or("").to_string());
     ("C20.ub".into(), "miri_error".into(), l)
@@ -83,7 +84,7 @@ pub fn flags_for_seed(seed: u64) -> String {
     format!("-Zmiri-seed={seed} -Zmiri-preemption-rate={PREEMPTION}")
 }
 
-/// run both modes over `n` Miri seeds starting at `first`
+/// run every mode over `n` Miri seeds starting at `first`
 pub fn run_all(first: u64, n: u64) -> Outcome {
     let t0 = std::time::Instant::now();
     // smoke: is the toolchain there and does the driver build?
@@ -96,7 +97,10 @@ pub fn run_all(first: u64, n: u64) -> Outcome {
         Ok(_) => {}
     }
     let mut modes = vec![];
-    for mode in ["sp", "mp"] {
+    // "td" = the teardown workloads (consumer abandons / stops / stalls, last handle dropped over
+    // a non-empty ring); like the other modes it runs WITHOUT -Zmiri-ignore-leaks, so Miri's leak
+    // check at exit and its double-free detection see SpscRing::drop over a full ring
+    for mode in ["sp", "mp", "td"] {
         let flags = format!("-Zmiri-many-seeds={first}..{} -Zmiri-many-seeds-keep-going -Zmiri-preemption-rate={PREEMPTION}", first + n);
         let (ok, text) = match run(mode, &flags) {
             Ok(r) => r,
